@@ -7,13 +7,15 @@
     satdeck.fieldprops <fam> <tolcrit> <mask17> <tables> <arrays17>
          answer  the same 17 quantities after the override by the arrays present in the deck
     satdeck.cell <fam> <tolcrit> <flags> <modParam> <maskD> <tablesD> <arraysD> <maskI> <tablesI> <arraysI>
-         flags   endscale, threepoint, hysteresis (0/1 each), krHysteresisModel (digit 0..3)
-         modParam  EHYSTR item 4 (trapping regularisation of Killough's model)
+         flags   endscale, threepoint, hysteresis (0/1 each), krHysteresisModel (digit 0..4, `-` = −1),
+                 pcHysteresisModel (`0`, `-` = −1)
+         modParam  `EHYSTR item 4 (trapping regularisation),EHYSTR item 1 (curvature of the Pc scanning curves)`
          answer  Swl  law(OW drainage) law(GO drainage) [law(OW imbibition) law(GO imbibition)]
                  law = cfg8|unscaled15|scaled15|swPc;pc;swKrw;krw;swKrn;krn
     satdeck.eval <…as cell…> <history sw:so:sg,…|-> <probes sw:so:sg,…>
          answer  for the initial state and after each history step:
-                 owMdc/owDelta/goMdc/goDelta/ (Carlson; Killough: Sncrt in place of delta) then per probe krw:kro:krg:pcow:pcgo
+                 for the oil-water and the gas-oil object krnSwMdc/deltaSwImbKrn/Sncrt/pcSwMdc/pcSwMic/initialImb/Swcrt,
+                 then per probe krw:kro:krg:pcow:pcgo
 -/
 import OpmVerif.Model.SatDeck
 import OpmVerif.Model.SatfuncIO
@@ -39,8 +41,9 @@ def flag (s : String) (i : Nat) : Bool := s.toList.getD i '0' = '1'
 def parseSpec (fam tol flags modp maskD tabD arrD maskI tabI arrI : String) : CellSpec Float :=
   let hyst := flag flags 2
   { tol := parseF tol, endscale := flag flags 0, threepoint := flag flags 1, hyst := hyst,
-    model := (flags.toList.getD 3 '0').toNat - '0'.toNat,
-    modParam := parseF modp, tiny := 1.0e-12,
+    krModel := (let ch := flags.toList.getD 3 '0'; if ch = '-' then -1 else Int.ofNat (ch.toNat - '0'.toNat)),
+    pcModel := (if flags.toList.getD 4 '-' = '0' then 0 else -1),
+    modParam := (parseList modp).getD 0 0, curvature := (parseList modp).getD 1 0, lits := Satfunc.floatLits,
     maskD := parseMask maskD, tabD := parseTables fam tabD, arrD := parseList arrD,
     maskI := if hyst then parseMask maskI else [],
     tabI := if hyst then parseTables fam tabI else parseTables fam tabD,
@@ -67,11 +70,11 @@ def parseSats (s : String) : List (Sat Float) :=
 
 def floatConsts : Consts Float := { eps := Float.ofBits 0x3EE4F8B588E368F1 /- 1e-5 -/, two := 2.0 }
 
+def showH (st : HState Float) : List String :=
+  [showF st.krnMdc, showF st.delta, showF st.Sncrt, showF st.pcMdc, showF st.pcMic, if st.initialImb then "1" else "0", showF st.Swcrt]
+
 def showStep (c : Cell Float) (st : CellState Float) (probes : List (Sat Float)) : String :=
-  let head :=
-    if ¬ c.ow.enabled then ["-", "-", "-", "-"]
-    else if c.ow.model ≤ 1 then [showF st.ow.c.mdc, showF st.ow.c.delta, showF st.go.c.mdc, showF st.go.c.delta]
-    else [showF st.ow.k.mdc, showF st.ow.k.Sncrt, showF st.go.k.mdc, showF st.go.k.Sncrt]
+  let head := if ¬ c.ow.enabled then ["-"] else showH st.ow ++ showH st.go
   "/".intercalate (head ++ probes.map fun p =>
     let v := evalCell floatConsts c st p
     ":".intercalate [showF v.krw, showF v.kro, showF v.krg, showF v.pcow, showF v.pcgo])
@@ -93,7 +96,7 @@ def handle (op : String) (args : List String) : String :=
     " ".intercalate ([showF c.swl, showLaw c.ow.d, showLaw c.go.d] ++ (if c.ow.enabled then [showLaw c.ow.i, showLaw c.go.i] else []))
   | "satdeck.eval", [fam, tol, flags, modp, maskD, tabD, arrD, maskI, tabI, arrI, hist, probes] =>
     let c := buildCell (parseSpec fam tol flags modp maskD tabD arrD maskI tabI arrI)
-    let st := initState c 2.0
+    let st := initState c
     let ps := parseSats probes
     " ".intercalate (showStep c st ps :: evalSteps c ps st (parseSats hist))
   | _, _ => "bad-op"
